@@ -91,8 +91,76 @@ def run_tsan(pid, tier, seed, cfg, env_for, known, excludes, BUILD, REPO, rdir):
     return out
 
 
+def run_fuzz(pid, tier, seed, cfg, env_for, known, excludes, BUILD, REPO, rdir):
+    """Coverage-guided fuzzing (libFuzzer) of the same property: the fuzz input is the case byte string, decoded by the
+    same data provider; the property's oracle runs inside the target. Corpus seeded with cases exported by the
+    rapidcheck generator. Bounded by -runs (never by time); only crash-* / leak-* artefacts are violations."""
+    fc = cfg["fuzz"][tier]
+    outdir = "%s/run/%s-fuzz" % (BUILD, pid)
+    shutil.rmtree(outdir, ignore_errors=True)
+    os.makedirs(outdir, exist_ok=True)
+    r = subprocess.run("make -f build.mk -j16 FLAVOUR=fuzz REPO=%s BUILD=%s %s/fuzz/vffuzz" % (REPO, BUILD, BUILD), shell=True, stdout=subprocess.PIPE, stderr=subprocess.STDOUT, text=True)
+    if r.returncode != 0:
+        print(r.stdout[-4000:])
+        print("BUILD-FAILED flavour=fuzz")
+        sys.exit(2)
+    env = env_for("asan")
+    env["ASAN_OPTIONS"] = "detect_leaks=1:abort_on_error=0:allocator_may_return_null=1:detect_stack_use_after_return=0"
+    seeds = "%s/seeds" % outdir
+    cmd = ["%s/asan/vfprop" % BUILD, "run", pid, "--cases", "400", "--seed", str(seed + 4242), "--out", "%s/seedgen.json" % outdir, "--replays", rdir, "--corpus", seeds]
+    if excludes:
+        cmd += ["--exclude", ",".join(excludes)]
+    subprocess.run(cmd, stdout=subprocess.DEVNULL, stderr=subprocess.DEVNULL, env=env)
+    procs = []
+    for w in range(fc["workers"]):
+        cdir = "%s/corpus%d" % (outdir, w)
+        os.makedirs(cdir, exist_ok=True)
+        if w % 4 != 3 and os.path.isdir(seeds):          # every fourth worker starts from an empty corpus
+            subprocess.run("cp %s/* %s/ 2>/dev/null" % (seeds, cdir), shell=True)
+        e = dict(env, VF_FUZZ_PROP=pid, VF_FUZZ_STATS="%s/stats%d.json" % (outdir, w), VF_FUZZ_EXCLUDE=",".join(excludes))
+        cmd = ["%s/fuzz/vffuzz" % BUILD, "-seed=%d" % ((seed * 31 + w * 977) % 2147483647 or 1), "-runs=%d" % fc["runs"], "-max_len=%d" % fc.get("max_len", 3000),
+               "-timeout=120", "-rss_limit_mb=4096", "-print_final_stats=1", "-artifact_prefix=%s/%s-fuzz-w%d-" % (os.path.abspath(rdir), pid, w), cdir]
+        lf = open("%s/w%d.log" % (outdir, w), "w")
+        procs.append((subprocess.Popen(cmd, stdout=lf, stderr=subprocess.STDOUT, env=e), "%s/stats%d.json" % (outdir, w), lf, w))
+    out = {"violations": [], "known_lines": [], "coverage": {}}
+    execs = nt = dn = 0
+    noise = 0
+    for p, statf, lf, w in procs:
+        p.wait()
+        lf.close()
+        if os.path.exists(statf):
+            try:
+                st = json.load(open(statf))
+                execs += st["executions"]; nt += st["nontrivial"]; dn += st["distinct_nontrivial"]
+            except Exception:
+                pass
+    import glob as _g
+    for a in sorted(_g.glob("%s/%s-fuzz-w*-*" % (rdir, pid))):
+        base = os.path.basename(a)
+        kind = base.split("-")[3] if len(base.split("-")) > 3 else ""
+        if kind in ("crash", "leak"):
+            log = ""
+            try:
+                wk = base.split("-")[2][1:]
+                log = open("%s/w%s.log" % (outdir, wk)).read()[-3000:]
+            except Exception:
+                pass
+            import re as _re
+            m = _re.search(r"VF-PROPERTY-FAILURE \S+: ([^\n]{0,300})", log) or _re.search(r"(ERROR: AddressSanitizer[^\n]{0,200}|runtime error:[^\n]{0,200})", log)
+            out["violations"].append((a, "fuzz:" + kind, (m.group(1) if m else "libFuzzer artefact " + base)))
+        else:
+            noise += 1          # timeout- / oom- / slow-unit-: load noise, inconclusive
+            os.remove(a)
+    out["coverage"] = {"fuzz_executions": execs, "fuzz_nontrivial": nt, "fuzz_distinct_nontrivial_per_worker_sum": dn, "fuzz_inconclusive_artefacts": noise,
+                       "evaluations": execs, "distinct_nontrivial": 0,
+                       "rule_extra": " | libFuzzer part: coverage-guided mutation of the same case byte strings (-runs bounded, corpus seeded by the generator; every 4th worker from an empty corpus)"}
+    return out
+
+
 def run(pid, tier, seed, cfg, env_for, known, excludes, BUILD, REPO, rdir):
     kind = cfg["extra"]
+    if kind == "fuzz":
+        return run_fuzz(pid, tier, seed, cfg, env_for, known, excludes, BUILD, REPO, rdir)
     if kind == "tsan":
         return run_tsan(pid, tier, seed, cfg, env_for, known, excludes, BUILD, REPO, rdir)
     if kind == "valgrind":
